@@ -181,7 +181,7 @@ Theorem write_footer (b : bundle) (bs : bytes) :
   b_write b = Ok bs -> lenN bs < two64 ->
   exists body, bs = body ++ [72] ++ be 8 (lenN bs) /\ lenN body + 9 = lenN bs.
 Proof.
-  intros H L. apply b_write_ok_iff in H. destruct H as [ts [_ [_ [_ [_ E]]]]].
+  intros H L. apply b_write_ok_iff in H. destruct H as [ts [_ [_ [_ [_ [_ E]]]]]].
   destruct (final_bytes_footer _ _ _ E L) as [Ef Ln].
   exists (file_body (b_ver b) (parsed_of b ts)). split; [|lia].
   rewrite sbe_be, bstr8_form in Ef by apply be_lenN. exact Ef.
@@ -199,7 +199,7 @@ Theorem write_sections_tile (b : bundle) (bs : bytes) :
     bs = hdr ++ List.concat (map snd secs) ++ [72] ++ be 8 (lenN bs)
     /\ lenN hdr + lenN (List.concat (map snd secs)) + 9 = lenN bs.
 Proof.
-  intros H L. apply b_write_ok_iff in H. destruct H as [ts [_ [_ [_ [_ E]]]]].
+  intros H L. apply b_write_ok_iff in H. destruct H as [ts [_ [_ [_ [_ [_ E]]]]]].
   destruct (final_bytes_footer _ _ _ E L) as [Ef Ln].
   rewrite sbe_be, bstr8_form in Ef by apply be_lenN.
   exists (sections_of b ts). unfold sections_of at 1. eexists. eexists.
@@ -219,7 +219,7 @@ Theorem write_index_sorted_nodup (b : bundle) (bs : bytes) :
     /\ NoDup (map ix_url idx)
     /\ (forall u, In u (map ix_url idx) <-> In u (map bx_url (b_exchanges b))).
 Proof.
-  intros H. pose proof H as H'. apply b_write_ok_iff in H'. destruct H' as [ts [_ [Ht _]]].
+  intros H. pose proof H as H'. apply b_write_ok_iff in H'. destruct H' as [ts [_ [_ [Ht _]]]].
   rewrite Ht. exists (sorted_index ts).
   split; [unfold sections_of; left; reflexivity|].
   destruct (write_agrees b bs ts H Ht) as [_ [_ [_ [_ [U [ND _]]]]]].
